@@ -1,4 +1,4 @@
-import RsMatterVerif.Lemmas.ExpandEvents
+import RsMatterVerif.Lemmas.ExpandAcl
 /-!
 # C06 — every Interaction Model operation is mediated by the access check
 
@@ -6,8 +6,11 @@ import RsMatterVerif.Lemmas.ExpandEvents
 `fuel` calls of `next`; all statements hold for every `fuel`, i.e. for every prefix of the
 expansion. `Expand.expected` is the specification written from the property text.
 The access-control state (`ctx.fabrics`), the requester and the node are fixed during one
-expansion (see `docs/C06.md` for the one deliberate exception in the code, the last-authorised
-cache across an ACL rewrite).
+expansion, except in `node_swap_safe` (the node composition changes between calls) and in
+`acl_rewrite_cache` (the ACL is rewritten between calls: what the last-authorised cache then does).
+The effects of a request are the call log of the transliterated invoker loop (`Expand.processAll`),
+`handler_calls_are_yielded_items`. Fabric-sensitive events: `event_other_fabric_never_disclosed`
+(for every value of the requester-controlled `isFabricFiltered`).
 -/
 namespace C06
 open Acl Expand
@@ -35,8 +38,9 @@ theorem wildcard_never_errors (ctx : Ctx) (op : Operation) (node : Node) (paths 
     p ∈ paths ∧ ¬ SupportedWildcard op p :=
   run_sound fuel _ (inv_init ctx op node paths) _ h
 
-/-- **Denied means no effect.** If no element matching the (any) path is authorised, no item comes
-out — the invoker / writer only ever act on items. -/
+/-- **Denied means no item.** If no element matching the (any) path is authorised, the expander yields
+statuses only. That no handler is then called is `denied_request_calls_no_handler` (a theorem about the
+transliterated invoker loop). -/
 theorem denied_has_no_effect (ctx : Ctx) (op : Operation) (node : Node) (paths : List Path) (fuel : Nat)
     (hden : ∀ ep cl lf, (∃ p ∈ paths, PathMatches p ep cl lf) → ¬ Authorised ctx op node (ep, cl, lf)) :
     ∀ o ∈ expand ctx op node paths fuel, ∃ p s, o = .status p s := by
@@ -340,14 +344,15 @@ theorem swap_cursor_increases (ctx : Ctx) (op : Operation) (p : Path) (hsw : Sup
 composition changes between calls (call `i` sees `nodes[i]`), under the invariants the code
 documents — every composition well-formed (endpoints sorted by id, distinct ids) and an endpoint id
 denoting the same endpoint throughout (`stableNodes`):
-1. every item was authorised on the node of its call and matches the path;
+1. the `i`-th answer is an item that was authorised on `nodes[i]`, **the node its own call saw**, and
+   matches the path;
 2. no leaf is yielded twice;
 3. once the expander is exhausted, every existing, matching, reachable, permitted leaf of an
    endpoint that is present in every composition has been yielded. -/
 theorem node_swap_safe (ctx : Ctx) (op : Operation) (p : Path) (hsw : SupportedWildcard op p)
     (nodes : List Node) (hwfn : ∀ n ∈ nodes, nodeWF n = true) (hstab : stableNodes nodes = true)
     (hwf : WF ctx.fabrics) (hcan : CanonicalPrivs ctx.fabrics) :
-    (∀ o ∈ runSwap ctx op nodes { items := [p] }, ∃ n ∈ nodes, ∃ ep cl lf arr,
+    (∀ (i : Nat) (o : Out), (runSwap ctx op nodes { items := [p] })[i]? = some o → ∃ n, nodes[i]? = some n ∧ ∃ ep cl lf arr,
         o = Out.item ep cl lf true arr ∧ Authorised ctx op n (ep, cl, lf) ∧ PathMatches p ep cl lf) ∧
     (runSwap ctx op nodes { items := [p] }).Pairwise (fun a b => tripleOf a ≠ tripleOf b) ∧
     (swapEnded ctx op nodes { items := [p] } = true →
@@ -361,7 +366,7 @@ theorem node_swap_safe (ctx : Ctx) (op : Operation) (p : Path) (hsw : SupportedW
   rw [hr, he]
   have hws : WildSt p { items := [], item := some p } := ⟨rfl, rfl⟩
   refine ⟨?_, ?_, ?_⟩
-  · exact runSwap_sound hsw nodes hst nodes (fun _ h => h) _ hws (fun _ _ _ h => by cases h)
+  · exact runSwap_sound_at hsw nodes hst nodes (fun _ h => h) _ hws (fun _ _ _ h => by cases h)
   · exact runSwap_no_repeat hsw nodes hwfn hst nodes (fun _ h => h) _ hws
   · intro hend E hE hme hre c hc hmc l hl hml hfil hperm
     have ho : Out.item E.id c.id l.id true (op != .invoke && l.array) ∈ wEndpoint ctx op p E := by
@@ -383,28 +388,143 @@ theorem node_swap_safe (ctx : Ctx) (op : Operation) (p : Path) (hsw : SupportedW
     rw [wEndpointsFrom_zero]
     exact List.mem_flatMap.mpr ⟨E, hE n hn, ho⟩
 
+/-! ## the access-control state is rewritten inside the request (what the cache is for) -/
+
+/-- **`acl_rewrite_cache`.** All other statements fix the ACL for the duration of a request. The
+last-authorised cache exists for the one case where it is not fixed: a WriteRequest whose items rewrite
+the ACL (`DeleteAll` + N×`Add` on the same attribute path; the handler of an item runs between two
+calls of `next`). With call `i` seeing `ctxs[i]` (any ACL per call, same requester and filter), every
+item answered is an enabled, reachable, filter-accepted leaf of the node, and its access was granted
+by the check under **the ACL of its own call** — unless it names the same `(endpoint, cluster, leaf)`
+as the item answered immediately before it, in which case the earlier decision is reused and the
+rewritten ACL is not consulted (`mLastSuccessfullyWrittenPath` of the reference implementation). An
+item on a *different* path is always checked against the ACL as the earlier items left it. -/
+theorem acl_rewrite_cache (op : Operation) (node : Node) (ctxs : List Ctx) (paths : List Path)
+    (i ep cl lf : Nat) (w a : Bool)
+    (h : (runCtx op node ctxs { items := paths })[i]? = some (Out.item ep cl lf w a)) :
+    ∃ ctx, ctxs[i]? = some ctx ∧ ExistsFor ctx op node (ep, cl, lf) ∧
+      (Authorised ctx op node (ep, cl, lf) ∨
+        lastItemOf none ((runCtx op node ctxs { items := paths }).take i) = some (ep, cl, lf)) :=
+  runCtx_cache op node ctxs { items := paths } i ep cl lf w a h
+
 /-! ## the whole request as the controller and the handlers see it (`imRequest`) -/
 
-/-- handlers are called for the items of the answer and for nothing else -/
+/-! ### the handlers are called exactly for the items the expander yields
+
+`Outcome.effects` is the call log `Dev.calls` filled by the transliterated invoker loop
+(`Expand.processAll`), a component of its own — the statements below are theorems about that loop
+(by induction), not definitional unfoldings, and they fail for a loop that hands a refused element to
+a handler (`calling_handler_for_denied_item_breaks_effects`). -/
+
+theorem itemsOf_append (a b : List Out) : itemsOf (a ++ b) = itemsOf a ++ itemsOf b := by
+  unfold itemsOf; rw [List.filterMap_append]
+
+theorem processItem_item (hnd : Handler) (d : Dev) (ep cl lf : Nat) (w a : Bool) :
+    ∃ o, processItem hnd d (.item ep cl lf w a) = { resp := d.resp ++ [o], calls := d.calls ++ [(ep, cl, lf)] } := by
+  cases hh : hnd ep cl lf with
+  | none => exact ⟨Out.item ep cl lf w a, by simp only [processItem, hh]⟩
+  | some s =>
+    exact ⟨Out.status { endpoint := some ep, cluster := some cl, leaf := some lf } s, by simp only [processItem, hh]⟩
+
+theorem foldl_processItem (hnd : Handler) : ∀ (outs : List Out) (d : Dev),
+    (outs.foldl (processItem hnd) d).calls = d.calls ++ itemsOf outs ∧
+    (outs.foldl (processItem hnd) d).resp.length = d.resp.length + outs.length
+  | [], d => by simp [itemsOf]
+  | o :: rest, d => by
+    simp only [List.foldl_cons]
+    obtain ⟨h1, h2⟩ := foldl_processItem hnd rest (processItem hnd d o)
+    rw [h1, h2]
+    cases o with
+    | item ep cl lf w a =>
+      obtain ⟨o, ho⟩ := processItem_item hnd d ep cl lf w a
+      rw [ho]
+      simp [itemsOf]; omega
+    | status p st => simp [processItem, itemsOf]; omega
+
+/-- **The handler is invoked exactly for the items the expander yields with `Ok`, in order** — whatever
+the handlers answer; an element yielded as a status (absent, not permitted, unsupported wildcard)
+never reaches a handler. -/
+theorem handler_calls_are_yielded_items (hnd : Handler) (outs : List Out) :
+    (processAll hnd outs).calls = itemsOf outs := by
+  have := (foldl_processItem hnd outs {}).1
+  simpa [processAll] using this
+
+/-- one answer per yielded element -/
+theorem one_answer_per_element (hnd : Handler) (outs : List Out) :
+    (processAll hnd outs).resp.length = outs.length := by
+  have := (foldl_processItem hnd outs {}).2
+  simpa [processAll] using this
+
+theorem foldl_processItem_ok : ∀ (outs : List Out) (d : Dev),
+    (outs.foldl (processItem okHandler) d).resp = d.resp ++ outs
+  | [], d => by simp
+  | o :: rest, d => by
+    simp only [List.foldl_cons]
+    rw [foldl_processItem_ok rest]
+    cases o <;> simp [processItem, okHandler]
+
+/-- with handlers that succeed the answers are what the expander yielded -/
+theorem answers_are_yielded (outs : List Out) : (processAll okHandler outs).resp = outs := by
+  have := foldl_processItem_ok outs {}
+  simpa [processAll] using this
+
+theorem foldl_processItem_status (hnd : Handler) {p : Path} {st : Status} : ∀ (outs : List Out) (d : Dev),
+    (Out.status p st ∈ d.resp ∨ Out.status p st ∈ outs) → Out.status p st ∈ (outs.foldl (processItem hnd) d).resp
+  | [], d, h => by rcases h with h | h; exact h; cases h
+  | o :: rest, d, h => by
+    simp only [List.foldl_cons]
+    apply foldl_processItem_status hnd rest
+    rcases h with h | h
+    · left
+      cases o with
+      | item ep cl lf w a =>
+        obtain ⟨o, ho⟩ := processItem_item hnd d ep cl lf w a
+        rw [ho]; simp [h]
+      | status p2 s2 => simp [processItem, h]
+    · rcases List.mem_cons.mp h with h | h
+      · left; subst h; simp [processItem]
+      · right; exact h
+
+/-- a status the expander yields is answered as that status, whatever the handlers do -/
+theorem yielded_status_is_answered (hnd : Handler) (outs : List Out) (p : Path) (st : Status)
+    (h : Out.status p st ∈ outs) : Out.status p st ∈ (processAll hnd outs).resp :=
+  foldl_processItem_status hnd outs {} (Or.inr h)
+
+/-- **a loop that hands a refused element to a handler is caught**: for the denied concrete write of
+the demo below the expander yields one status; the faithful loop calls no handler, the mutated one
+does — `handler_calls_are_yielded_items` is false for it -/
+theorem calling_handler_for_denied_item_breaks_effects :
+    let outs := [Out.status { endpoint := some 0, cluster := some 31, leaf := some 0 } Status.unsupportedAccess]
+    (processAll okHandler outs).calls = [] ∧
+    (outs.foldl (processItemBad okHandler) {}).calls = [(0, 31, 0)] ∧
+    (outs.foldl (processItemBad okHandler) {}).calls ≠ itemsOf outs := by decide
+
+/-- handlers are called for the items the expander yielded — when the request got past the timed
+gate and the request validation — and not at all otherwise -/
 theorem e2e_effects_are_items (op : Operation) (flag : Bool) (tr : Option (Nat × Nat)) (paths : List Path)
-    (answers : List Out) :
-    (imRequest op flag tr paths answers).effects = itemsOf (imRequest op flag tr paths answers).resp := by
+    (answers : List Out) (hnd : Handler) :
+    (imRequest op flag tr paths answers hnd).effects =
+      if (imRequest op flag tr paths answers hnd).top.isSome then [] else itemsOf answers := by
   unfold imRequest
   simp only
   generalize (if (op == Operation.read) = true then TimedGate.proceed
     else timedGate flag (tr.map (·.1)) ((tr.map (·.2)).getD 0)) = g
   cases g with
-  | proceed => simp only; split <;> rfl
+  | proceed =>
+    simp only
+    split
+    · rfl
+    · simp [handler_calls_are_yielded_items]
   | timedRequestMismatch => rfl
   | timeout => rfl
 
 /-- a write / invoke whose timed gate is not open (flag without a live TimedRequest window, or a
 TimedRequest without the flag) has no effect and no per-path answer -/
 theorem e2e_gate_closed_no_effect (op : Operation) (flag : Bool) (tr : Option (Nat × Nat)) (paths : List Path)
-    (answers : List Out) (hop : op ≠ .read)
+    (answers : List Out) (hnd : Handler) (hop : op ≠ .read)
     (hg : timedGate flag (tr.map (·.1)) ((tr.map (·.2)).getD 0) ≠ .proceed) :
-    (imRequest op flag tr paths answers).effects = [] ∧ (imRequest op flag tr paths answers).resp = [] ∧
-      (imRequest op flag tr paths answers).top.isSome = true := by
+    (imRequest op flag tr paths answers hnd).effects = [] ∧ (imRequest op flag tr paths answers hnd).resp = [] ∧
+      (imRequest op flag tr paths answers hnd).top.isSome = true := by
   unfold imRequest
   have : (op == Operation.read) = false := by cases op <;> simp_all
   simp only [this, Bool.false_eq_true, if_false]
@@ -425,7 +545,8 @@ theorem mem_itemsOf {outs : List Out} {t : Nat × Nat × Nat} (h : t ∈ itemsOf
   | status p s => simp at hs
 
 theorem effects_subset_items (op : Operation) (flag : Bool) (tr : Option (Nat × Nat)) (paths : List Path)
-    (answers : List Out) (t : Nat × Nat × Nat) (h : t ∈ (imRequest op flag tr paths answers).effects) :
+    (answers : List Out) (hnd : Handler) (t : Nat × Nat × Nat)
+    (h : t ∈ (imRequest op flag tr paths answers hnd).effects) :
     t ∈ itemsOf answers ∧
       (op ≠ .read → timedGate flag (tr.map (·.1)) ((tr.map (·.2)).getD 0) = .proceed) := by
   unfold imRequest at h
@@ -435,7 +556,8 @@ theorem effects_subset_items (op : Operation) (flag : Bool) (tr : Option (Nat ×
     simp only [hop, if_true] at h
     split at h
     · cases h
-    · exact ⟨h, fun hh => absurd this hh⟩
+    · rw [handler_calls_are_yielded_items] at h
+      exact ⟨h, fun hh => absurd this hh⟩
   | false =>
     simp only [hop, Bool.false_eq_true, if_false] at h
     cases hgt : timedGate flag (tr.map (·.1)) ((tr.map (·.2)).getD 0) with
@@ -443,20 +565,34 @@ theorem effects_subset_items (op : Operation) (flag : Bool) (tr : Option (Nat ×
       simp only [hgt] at h
       split at h
       · cases h
-      · exact ⟨h, fun _ => rfl⟩
+      · rw [handler_calls_are_yielded_items] at h
+        exact ⟨h, fun _ => rfl⟩
     | timedRequestMismatch => simp only [hgt] at h; cases h
     | timeout => simp only [hgt] at h; cases h
+
+/-- **Denied means no effect on the device**: if no element matching any requested path is authorised,
+then — whatever the handlers would answer — no handler is called, and every answer is a status. -/
+theorem denied_request_calls_no_handler (ctx : Ctx) (op : Operation) (node : Node) (paths : List Path)
+    (fuel : Nat) (flag : Bool) (tr : Option (Nat × Nat)) (hnd : Handler)
+    (hden : ∀ ep cl lf, (∃ p ∈ paths, PathMatches p ep cl lf) → ¬ Authorised ctx op node (ep, cl, lf)) :
+    (imRequest op flag tr paths (expand ctx op node paths fuel) hnd).effects = [] := by
+  apply List.eq_nil_iff_forall_not_mem.mpr
+  intro t ht
+  obtain ⟨hi, _⟩ := effects_subset_items op flag tr paths _ hnd t ht
+  obtain ⟨w, a, hm⟩ := mem_itemsOf hi
+  obtain ⟨p, s, hps⟩ := denied_has_no_effect ctx op node paths fuel hden _ hm
+  cases hps
 
 /-- **Every effect on the device is a permitted existing item**: whatever the request, a handler
 call happens only for an enabled leaf of the node that matches a requested path, is reachable, and
 is `permitted` by the specification (through `expanded_items_permitted`). -/
 theorem e2e_effect_permitted (ctx : Ctx) (op : Operation) (node : Node) (paths : List Path) (fuel : Nat)
     (tr : Option (Nat × Nat)) (hn : nodeWF node = true) (hwf : WF ctx.fabrics) (hc : CanonicalPrivs ctx.fabrics)
-    (t : Nat × Nat × Nat)
-    (h : t ∈ (imRequest op ctx.timed tr paths (expand ctx op node paths fuel)).effects) :
+    (hnd : Handler) (t : Nat × Nat × Nat)
+    (h : t ∈ (imRequest op ctx.timed tr paths (expand ctx op node paths fuel) hnd).effects) :
     ∃ e ∈ node, e.id = t.1 ∧ ∃ c ∈ e.clusters, c.id = t.2.1 ∧ ∃ l ∈ specLeaves c op, l.id = t.2.2 ∧
       reachable ctx e = true ∧ permitted ctx op e c l = none ∧ ∃ p ∈ paths, PathMatches p t.1 t.2.1 t.2.2 := by
-  obtain ⟨hi, _⟩ := effects_subset_items op ctx.timed tr paths _ t h
+  obtain ⟨hi, _⟩ := effects_subset_items op ctx.timed tr paths _ hnd t h
   obtain ⟨w, a, hm⟩ := mem_itemsOf hi
   obtain ⟨e, he, hid, c, hcm, hci, l, hl, hli, hr, _, hp, hpm⟩ :=
     expanded_items_permitted ctx op node paths fuel t.1 t.2.1 t.2.2 w a hn hwf hc hm
@@ -466,12 +602,12 @@ theorem e2e_effect_permitted (ctx : Ctx) (op : Operation) (node : Node) (paths :
 a write / invoke on an element whose declaration is timed-only implies that the action carried the
 timed flag, was preceded by a TimedRequest, and arrived before the window closed. -/
 theorem e2e_timed_only_live (ctx : Ctx) (op : Operation) (node : Node) (paths : List Path) (fuel : Nat)
-    (tr : Option (Nat × Nat)) (hop : op ≠ .read) (t : Nat × Nat × Nat)
-    (h : t ∈ (imRequest op ctx.timed tr paths (expand ctx op node paths fuel)).effects) :
+    (tr : Option (Nat × Nat)) (hop : op ≠ .read) (hnd : Handler) (t : Nat × Nat × Nat)
+    (h : t ∈ (imRequest op ctx.timed tr paths (expand ctx op node paths fuel) hnd).effects) :
     ∃ e ∈ node, e.id = t.1 ∧ ∃ c ∈ e.clusters, c.id = t.2.1 ∧
       (contains (if op = .invoke then cmdPerms c t.2.2 else attrPerms c t.2.2) Consts.accTimedOnly = true →
         ctx.timed = true ∧ ∃ timeout elapsed, tr = some (timeout, elapsed) ∧ elapsed ≤ timeout) := by
-  obtain ⟨hi, hg⟩ := effects_subset_items op ctx.timed tr paths _ t h
+  obtain ⟨hi, hg⟩ := effects_subset_items op ctx.timed tr paths _ hnd t h
   obtain ⟨w, a, hm⟩ := mem_itemsOf hi
   obtain ⟨e, he, hid, c, hc, hci, himp⟩ := timed_only_needs_timed ctx op node paths fuel t.1 t.2.1 t.2.2 w a hop hm
   refine ⟨e, he, hid, c, hc, hci, fun ht => ?_⟩
@@ -537,7 +673,7 @@ theorem chunked_write_timed_only_live (ctx : Ctx) (node : Node) (timeout : Optio
   subst h3
   obtain ⟨e, he, hid, cl, hcl, hci, himp⟩ :=
     e2e_timed_only_live { ctx with timed := c.flag } .write node c.paths fuel
-      (timeout.map (fun t => (t, now))) (by simp) t ht
+      (timeout.map (fun t => (t, now))) (by simp) okHandler t ht
   refine ⟨pre, c, post, h1, e, he, hid, cl, hcl, hci, fun hto => ?_⟩
   simp only [reduceCtorEq, if_false] at himp
   obtain ⟨hf, T, el, htr, hle⟩ := himp hto
@@ -555,7 +691,7 @@ theorem chunked_write_stops_at_closed_gate (answers : Bool → List Path → Lis
     (hg : timedGate c.flag timeout (el + c.delay) ≠ .proceed) :
     ∃ o, imWriteChunks answers timeout el (c :: rest) = [o] ∧ o.effects = [] ∧ o.top.isSome = true := by
   have h := e2e_gate_closed_no_effect .write c.flag (timeout.map (fun t => (t, el + c.delay))) c.paths
-    (answers c.flag c.paths) (by simp) (by
+    (answers c.flag c.paths) okHandler (by simp) (by
       cases timeout with
       | none => simpa [timedGate] using hg
       | some T => simpa using hg)
@@ -583,14 +719,18 @@ def Events_full : Prop :=
     ctx.accessor.authMode ≠ some AuthMode.group →
     reportEvents ctx node ff paths queue = expectedEvents ctx node ff paths queue
 
-/-- **Event paths, proved part**: equality with the specification except that a concrete path naming
-an absent event gets no `UnsupportedEvent` status (finding `C06-absent-event-silent`). -/
-theorem events_eq_spec_partial (ctx : Ctx) (node : Node) (ff : Bool) (paths : List Path)
+/-- **Event paths**: `report_events` equals the specification — every concrete path that is absent
+(endpoint / cluster / event) or not permitted gets exactly its status, every visible occurrence is
+reported once in queue order, nothing else (since the repair of `C06-absent-event-silent` this
+includes the `UnsupportedEvent` status of a concrete path naming an absent event). -/
+theorem events_eq_spec (ctx : Ctx) (node : Node) (ff : Bool) (paths : List Path)
     (queue : List EventOcc)
     (hev : eventsWF node = true) (hwf : WF ctx.fabrics) (hcan : CanonicalPrivs ctx.fabrics)
     (hg : ctx.accessor.authMode ≠ some AuthMode.group) :
-    reportEvents ctx node ff paths queue = expectedEventsSilent ctx node ff paths queue :=
-  reportEvents_eq_expectedSilent ctx node ff paths queue hev hwf hcan hg
+    reportEvents ctx node ff paths queue = expectedEvents ctx node ff paths queue :=
+  reportEvents_eq_expected ctx node ff paths queue hev hwf hcan hg
+
+theorem Events_full_holds : Events_full := events_eq_spec
 
 /-- every disclosed occurrence exists on the node, is permitted, matches a requested path and passes
 the fabric filter -/
@@ -600,9 +740,8 @@ theorem event_disclosed_visible (ctx : Ctx) (node : Node) (ff : Bool) (paths : L
     (hg : ctx.accessor.authMode ≠ some AuthMode.group) (o : EventOcc)
     (h : EvOut.data o ∈ reportEvents ctx node ff paths queue) :
     o ∈ queue ∧ eventVisible ctx node ff paths o = true := by
-  rw [events_eq_spec_partial ctx node ff paths queue hev hwf hcan hg] at h
-  unfold expectedEventsSilent expectedEvents at h
-  obtain ⟨h, _⟩ := List.mem_filter.mp h
+  rw [events_eq_spec ctx node ff paths queue hev hwf hcan hg] at h
+  unfold expectedEvents at h
   rcases List.mem_append.mp h with h | h
   · obtain ⟨p, _, hp⟩ := List.mem_filterMap.mp h
     split at hp
@@ -614,13 +753,15 @@ theorem event_disclosed_visible (ctx : Ctx) (node : Node) (ff : Bool) (paths : L
     subst heq
     exact ⟨(List.mem_filter.mp ho').1, (List.mem_filter.mp ho').2⟩
 
-/-- **fabric-sensitive events of other fabrics are not disclosed** (no hypotheses): with fabric
-filtering on, a reported occurrence carries no fabric index or the requester's -/
-theorem event_other_fabric_not_disclosed (ctx : Ctx) (node : Node) (paths : List Path)
+/-- **Fabric-sensitive events of other fabrics are never disclosed** — no hypotheses, and for
+**every** value of the requester-controlled `isFabricFiltered` flag `ff`: a reported occurrence that
+is associated with a fabric is associated with the requester's fabric. (Before the repair this held
+for `ff = true` only: `unfiltered_read_disclosed_before_fix`.) -/
+theorem event_other_fabric_never_disclosed (ctx : Ctx) (node : Node) (ff : Bool) (paths : List Path)
     (queue : List EventOcc) (o : EventOcc)
-    (h : EvOut.data o ∈ reportEvents ctx node true paths queue) :
-    o.fab = 0 ∨ o.fab = ctx.accessor.fabIdx := by
-  unfold reportEvents at h
+    (h : EvOut.data o ∈ reportEvents ctx node ff paths queue) :
+    ∀ f, o.fabricOf = some f → f = ctx.accessor.fabIdx := by
+  unfold reportEvents eventStatuses at h
   rcases List.mem_append.mp h with h | h
   · obtain ⟨p, _, hp⟩ := List.mem_filterMap.mp h
     split at hp
@@ -630,10 +771,24 @@ theorem event_other_fabric_not_disclosed (ctx : Ctx) (node : Node) (paths : List
     injection heq with heq
     subst heq
     have := (List.mem_filter.mp ho').2
-    simp only [Bool.not_true, Bool.false_or, Bool.and_eq_true] at this
+    simp only [Bool.and_eq_true] at this
     have hf := this.1.1
+    intro f hof
+    unfold EventOcc.fabricOf at hof
     unfold matchesFabric at hf
-    simpa using hf
+    cases hfab : o'.fab with
+    | absent => rw [hfab] at hof; cases hof
+    | unreadable => rw [hfab] at hof; cases hof
+    | idx n =>
+      rw [hfab] at hof hf
+      simp only [Option.some.injEq] at hof
+      subst hof
+      simpa using hf
+
+/-- the answer to an event read does not depend on the requester-controlled `isFabricFiltered` flag -/
+theorem events_flag_independent (ctx : Ctx) (node : Node) (ff ff2 : Bool) (paths : List Path)
+    (queue : List EventOcc) :
+    reportEvents ctx node ff paths queue = reportEvents ctx node ff2 paths queue := rfl
 
 /-! ## non-vacuity -/
 
@@ -727,6 +882,28 @@ example : runSwap demoCtxAll .read [demoNode, demoNode2, demoNode2, demoNode, de
   decide
 example : SupportedWildcard .read wild := ⟨rfl, Or.inl rfl⟩
 
+/-- an ACL rewrite inside one WriteRequest: the requester is Administrator when the first item is
+checked; the handler of that item empties the ACL (calls 2 and 3 see `demoCtxNone`). The second item —
+same path — is let through by the cache; the third — another path — is checked against the emptied
+ACL and refused. Under the emptied ACL alone nothing would be written. -/
+def demoCtxAdminT : Ctx := { demoCtx true with fabrics := demoAclAll }
+def demoCtxNone : Ctx := { demoCtx true with fabrics := [ { fabIdx := 1, acl := [], groups := [] } ] }
+example : runCtx .write demoNode [demoCtxAdminT, demoCtxNone, demoCtxNone, demoCtxNone]
+      { items := [conc 0 31 0, conc 0 31 0, conc 1 6 1] } =
+    [.item 0 31 0 false true, .item 0 31 0 false true, .status (conc 1 6 1) .unsupportedAccess] ∧
+    expand demoCtxNone .write demoNode [conc 0 31 0, conc 0 31 0, conc 1 6 1] 10 =
+    [.status (conc 0 31 0) .unsupportedAccess, .status (conc 0 31 0) .unsupportedAccess,
+     .status (conc 1 6 1) .unsupportedAccess] := by decide
+
+/-- the hypothesis of `denied_request_calls_no_handler` is satisfiable: node 5 may not touch endpoint 0,
+a write to `0/31/0` (and a read of it) yields its status and no handler call -/
+example : (imRequest .write false none [conc 0 31 0]
+      (expand (demoCtx false) .write demoNode [conc 0 31 0] 10)).effects = [] ∧
+    (imRequest .write false none [conc 0 31 0]
+      (expand (demoCtx false) .write demoNode [conc 0 31 0] 10)).resp = [.status (conc 0 31 0) .unsupportedAccess] ∧
+    (imRequest .write true (some (100, 5)) [conc 1 6 1]
+      (expand (demoCtx true) .write demoNode [conc 1 6 1] 10)).effects = [(1, 6, 1)] := by decide
+
 /-- events: endpoint 1 / cluster 6 with events 0 (`RV`) and 1 (`R` + Manage) -/
 def demoNodeEv : Node :=
   [ { id := 1, deviceTypes := [256], clusters :=
@@ -734,8 +911,8 @@ def demoNodeEv : Node :=
           events := [ { id := 0, access := 17, array := false, enabled := true },
                       { id := 1, access := 20, array := false, enabled := true } ] } ] } ]
 def evq : List EventOcc :=
-  [ { ep := 1, cl := 6, ev := 0, fab := 0, num := 1 }, { ep := 1, cl := 6, ev := 1, fab := 0, num := 2 },
-    { ep := 1, cl := 6, ev := 0, fab := 2, num := 3 }, { ep := 1, cl := 6, ev := 7, fab := 0, num := 4 } ]
+  [ { ep := 1, cl := 6, ev := 0, fab := .absent, num := 1 }, { ep := 1, cl := 6, ev := 1, fab := .absent, num := 2 },
+    { ep := 1, cl := 6, ev := 0, fab := .idx 2, num := 3 }, { ep := 1, cl := 6, ev := 7, fab := .absent, num := 4 } ]
 /-- an Operate requester: event 0 disclosed (not the occurrence of fabric 2, not the absent event 7),
 event 1 (needs Manage) omitted by the wildcard and refused with a status when named -/
 def demoAclOp : List Fabric :=
@@ -745,9 +922,25 @@ def demoAclOp : List Fabric :=
 def demoCtxOp : Ctx := { demoCtx false with fabrics := demoAclOp }
 example : reportEvents demoCtxOp demoNodeEv true [wild, conc 1 6 1, conc 1 9 0] evq =
     [.status (conc 1 6 1) .unsupportedAccess, .status (conc 1 9 0) .unsupportedCluster, .data evq[0]!] := by decide
-/-- the full statement fails on the code's model: a concrete path naming an absent event -/
-example : reportEvents demoCtxOp demoNodeEv true [conc 1 6 7] evq = [] ∧
+/-- a concrete path naming an absent event gets `UnsupportedEvent` (was silent before the repair of
+`C06-absent-event-silent`) -/
+example : reportEvents demoCtxOp demoNodeEv true [conc 1 6 7] evq = [.status (conc 1 6 7) .unsupportedEvent] ∧
     expectedEvents demoCtxOp demoNodeEv true [conc 1 6 7] evq = [.status (conc 1 6 7) .unsupportedEvent] := by decide
+/-- **The defect `C06-fabric-sensitive-event-unfiltered`, on the model of the code before the repair**:
+a requester of fabric 1 that clears `isFabricFiltered` in its read request is shown occurrence 3, a
+fabric-sensitive event of fabric 2; the specification (and the repaired code) withhold it for both
+values of the flag. -/
+theorem unfiltered_read_disclosed_before_fix :
+    EvOut.data evq[2]! ∈ reportEventsOld demoCtxOp demoNodeEv false [wild] evq ∧
+    evq[2]!.fabricOf = some 2 ∧ demoCtxOp.accessor.fabIdx = 1 ∧
+    EvOut.data evq[2]! ∉ expectedEvents demoCtxOp demoNodeEv false [wild] evq ∧
+    EvOut.data evq[2]! ∉ reportEvents demoCtxOp demoNodeEv false [wild] evq ∧
+    reportEvents demoCtxOp demoNodeEv false [wild] evq = [.data evq[0]!] := by decide
+/-- the hypothesis of `event_other_fabric_never_disclosed` is satisfiable with the flag cleared, also by
+an occurrence associated with the requester's own fabric -/
+example : EvOut.data { ep := 1, cl := 6, ev := 0, fab := .idx 1, num := 9 } ∈
+    reportEvents demoCtxOp demoNodeEv false [wild] [{ ep := 1, cl := 6, ev := 0, fab := .idx 1, num := 9 }] := by
+  decide
 /-- the request-level gates -/
 example : (imRequest .write true (some (100, 101)) [conc 1 6 1] []).top = some "Timeout" ∧
     (imRequest .write true (some (100, 100)) [conc 1 6 1] [.item 1 6 1 false false]).effects = [(1, 6, 1)] ∧
